@@ -160,6 +160,11 @@ pub fn run_enc<T: Model>(ctx: &mut Ctx) {
                     &["fixed_len_exact", "enc", &d, &val, &name],
                 );
             }
+            if let Some(ok) = catch_unwind(AssertUnwindSafe(|| v.concat_oracle())).unwrap_or(Some(false)) {
+                // a list of fixed-size items is the concatenation of the items' standalone encodings
+                ctx.out.r("C10", "enc", ok, &["list_is_concatenation_of_item_encodings", "enc", &d, &val, &name]);
+                ctx.out.r("C03", "enc", ok, &["list_is_concatenation_of_item_encodings", "enc", &d, &val, &name]);
+            }
             if let Some(_n) = T::union_variants() {
                 // C15: the leading byte is the zero-based declaration index of the variant
                 let idx: Option<usize> = if val == "N" {
